@@ -7,6 +7,7 @@ use std::panic::{catch_unwind, AssertUnwindSafe};
 
 mod util;
 mod angles;
+mod collide;
 mod series;
 mod frames;
 mod spatial;
@@ -39,6 +40,7 @@ fn dispatch(rec: &Value, st: &mut State) -> Value {
     let m = rec["m"].as_str().unwrap_or("");
     match m {
         "angles" => angles::exec(rec, st),
+        "collide" => collide::exec(rec, st),
         "series" => series::exec(rec, st),
         "frames" => frames::exec(rec, st),
         "spatial" => spatial::exec(rec, st),
